@@ -42,7 +42,7 @@ def unchanged(w0, w1, except_=()):
             continue
         if k in LISTS:
             cs.append(z3.BoolVal(len(w0[k]) == len(w1[k])))
-        elif k == 'ibc_context':
+        elif k == 'ibc_context' or k not in w1 or not z3.is_expr(w0[k]):
             continue
         else:
             cs.append(w0[k] == w1[k])
